@@ -7,6 +7,11 @@ Server.create_authn_response (best_effort unset / False / True; the outcome kind
 AttributeStatement, or error response without assertion - is read back with xml.etree); Coq evaluates
 model = implementation and the property on the implementation's output.
 
+A case is the LIFE of one long-lived object: the list of calls made on one Policy (or on one Server and its
+policy), the metadata store refreshed in between (observe_life); most cases are lives of one call on a fresh
+object.  Coq checks every call of a life (Corr.agrees / holds = forallb over the calls; Model.run_life,
+Spec.spec_life, theorems c10_life_*).
+
 Findings C10-F1 (best_effort hard-coded, MissingValue => unfiltered identity) and C10-F2 (entity
 categories skipped without a metadata store) are FIXED in /repo (a4e3dbdd, 47cc754e): Corr.cls still
 names the two input classes, and since findings/C10.json marks them fixed a case of either class whose
@@ -25,6 +30,7 @@ from harness.common import Raw, cq, cq_opt
 
 PID = "C10"
 PARALLEL = 8
+SHARD = 200
 IMPORTS = "From Verif Require Import C10.Model C10.Spec C10.Corr.\nFrom VerifGen Require Import C10Abbrev."
 CASE_TYPE = "C10.Corr.case"
 RUNNER = "C10.Corr.run"
@@ -41,7 +47,19 @@ RULE = ("complete products: Policy.get precedence (presence of requester / regis
         "(None/True/False) of Policy.filter / restrict / Assertion.apply_policy x value shapes; Policy WITHOUT "
         "metadata store x every entity-category module (and pairs) x entry point 3 x attribute_restrictions; "
         "widened by seeded random identities x policies x requester metadata on all four entry "
-        "points and ~190 random cases through Server.create_authn_response.  non-trivial = distinct (entry point, "
+        "points and ~190 random cases through Server.create_authn_response.  LIVES (a case is the list of calls made on ONE "
+        "long-lived object; the cases above are lives of one call): host 3 (one Policy on a real MetadataStore / on a stub "
+        "store / the Policy and MetadataStore of one Server, calls through create_authn_response and on the Server's policy "
+        "mixed) x every bundled entity-category module x (ONLY_REQUIRED keys first) x what entitles the requester changes "
+        "between calls: isRequired set shrinks / grows / RequestedAttributes leave the document, the requester leaves / joins "
+        "/ changes its categories, its registration authority changes (another section applies), the `required` argument of "
+        "Policy.filter changes, a second requester or a second user in between, a SECOND Policy object with another "
+        "configuration on the same store taking turns; without categories: declaration shrinks / grows / lists values / "
+        "becomes unsuppliable, subject-id requirement changes, fail_on_missing / best_effort changes, section precedence "
+        "changes; the store is refreshed by MetadataStore.reload / by replacing the sources / by re-parsing in place; "
+        "~220 random lives (2-5 calls, random policy, description mutated by 1-2 edits per refresh).  Every call of a life "
+        "is compared with the model and judged against the requester as described AT THAT CALL.  "
+        "non-trivial = distinct (entry point, "
         "best_effort / fail_on_missing argument, applicable section kind, restriction kind, entity-category mode, "
         "declaration shape, outcome) classes other than 'nothing configured, everything released'")
 TRUSTED = ["source-to-Gallina translator harness/py2coq.py + coq/theories/Base/Py.v (Policy.get is re-translated from the source text "
@@ -69,7 +87,11 @@ ASSUMPTIONS = ["attribute names, FriendlyNames and entity ids are ASCII (the mod
                "argument; best_effort=True at Server.create_authn_response means 'do not fail'), else the applicable section's "
                "fail_on_missing_requested (default True)",
                "a requester about which nothing is known (Policy without metadata store) is in no entity category",
-               "Server.create_authn_response is exercised on its non-PEFIM branch, unsigned, unencrypted"]
+               "Server.create_authn_response is exercised on its non-PEFIM branch, unsigned, unencrypted",
+               "a life: the policy configuration of an object is fixed at construction; what the metadata store says about a "
+               "requester at the time of a call is the requester's description for that call (a refresh between calls is "
+               "complete before the next call starts); a requester missing from the store is not exercised with entity "
+               "categories in force (the code raises KeyError: nothing is released)"]
 
 URI = "urn:oasis:names:tc:SAML:2.0:attrname-format:uri"
 BASIC = "urn:oasis:names:tc:SAML:2.0:attrname-format:basic"
@@ -472,29 +494,27 @@ NS_P = "{urn:oasis:names:tc:SAML:2.0:protocol}"
 _AUTHN = {"class_ref": "urn:oasis:names:tc:SAML:2.0:ac:classes:Password", "authn_auth": "https://idp.example.org/"}
 
 
-def observe(case):
-    env.check_repo_import()
+def _call(entry, step, ident, pol=None, idp=None):
+    """One call on the real code.  step: dict with sp / req / opt / fail / be / fo.  Returns (out, Assertion dict
+    after apply_policy or None)."""
     import saml2.assertion as A
     from saml2.s_utils import MissingValue
 
-    ident = {k: (v if isinstance(v, str) else list(v)) for k, v in case["ident"]}
-    entry = case["entry"]
     out, self_after = None, None
+    sp = step["sp"]
     try:
         if entry == "foa":
-            r = A.filter_on_attributes(ident, [ra_dict(x) for x in case["req"]] or None,
-                                       [ra_dict(x) for x in case["opt"]] or None, acs(), case["fail"])
+            r = A.filter_on_attributes(ident, [ra_dict(x) for x in step["req"]] or None,
+                                       [ra_dict(x) for x in step["opt"]] or None, acs(), step["fail"])
             out = {"k": "ok", "ava": abs_ava(r)}
         elif entry == "server":
-            env.install_standin()
             from saml2.saml import NAMEID_FORMAT_TRANSIENT, NameID
 
-            idp = world.make_idp(metadata_xml=[sp_md_xml(case["md"])], idp_policy=copy.deepcopy(case["polcfg"]))
             nid = NameID(format=NAMEID_FORMAT_TRANSIENT, text="subject-1")
             kw = {}
-            if case["be"] is not None:
-                kw["best_effort"] = case["be"]
-            resp = idp.create_authn_response(ident, "req-1", world.SP_ACS_POST, case["sp"], name_id=nid,
+            if step.get("be") is not None:
+                kw["best_effort"] = step["be"]
+            resp = idp.create_authn_response(ident, "req-1", world.SP_ACS_POST, sp, name_id=nid,
                                              authn=dict(_AUTHN), **kw)
             root = ET.fromstring(str(resp))
             if root.tag != NS_P + "Response":
@@ -516,20 +536,18 @@ def observe(case):
                     rel[key] = [(v.text or "") for v in a.findall(NS_A + "AttributeValue")]
                 out = {"k": "ok", "ava": abs_ava(rel)}
         else:
-            store = make_store(case["md"])
-            pol = A.Policy(copy.deepcopy(case["polcfg"]), store)
-            fkw = {} if case.get("fo") is None else {"fail_on_missing": case["fo"]}
+            fkw = {} if step.get("fo") is None else {"fail_on_missing": step["fo"]}
             if entry == "filter":
-                r = pol.filter(ident, case["sp"], required=[ra_dict(x) for x in case["req"]] or None,
-                               optional=[ra_dict(x) for x in case["opt"]] or None, **fkw)
+                r = pol.filter(ident, sp, required=[ra_dict(x) for x in step["req"]] or None,
+                               optional=[ra_dict(x) for x in step["opt"]] or None, **fkw)
                 out = {"k": "ok", "ava": abs_ava(r)}
             elif entry == "restrict":
-                r = pol.restrict(ident, case["sp"], **fkw)
+                r = pol.restrict(ident, sp, **fkw)
                 out = {"k": "ok", "ava": abs_ava(r)}
             else:
                 ast = A.Assertion(ident)
                 try:
-                    r = ast.apply_policy(case["sp"], pol, **fkw)
+                    r = ast.apply_policy(sp, pol, **fkw)
                     out = {"k": "ok", "ava": abs_ava(r)}
                 finally:
                     self_after = abs_ava(dict(ast))
@@ -540,16 +558,149 @@ def observe(case):
             out = {"k": "missing", "via": "exception"}
     except Exception as e:  # any other exception: nothing is released
         out = {"k": "crash", "exc": type(e).__name__}
-    # regex matrix, exactly as the code asks the engine
+    return out, self_after
+
+
+def _regex_matrix(pol, ident_items):
+    """regex matrix, exactly as the code asks the engine"""
     regs = set()
-    for _, sec in (case["pol"] or []):
+    for _, sec in (pol or []):
         for _, rs in ((sec or {}).get("ar") or []):
             regs.update(rs or [])
     vals = set()
-    for _, v in case["ident"]:
+    for _, v in ident_items:
         vals.update([v] if isinstance(v, str) else v)
-    mt = sorted([r, v] for r in regs for v in vals if re.compile(r).match(v))
-    return {"out": out, "caller": abs_ava(ident), "self": self_after, "mt": mt}
+    return sorted([r, v] for r in regs for v in vals if re.compile(r).match(v))
+
+
+def _identity(items):
+    return {k: (v if isinstance(v, str) else list(v)) for k, v in items}
+
+
+def observe(case):
+    env.check_repo_import()
+    import saml2.assertion as A
+
+    if case["entry"] == "life":
+        return observe_life(case)
+    ident = _identity(case["ident"])
+    entry = case["entry"]
+    pol = idp = None
+    try:
+        if entry == "server":
+            env.install_standin()
+            idp = world.make_idp(metadata_xml=[sp_md_xml(case["md"])], idp_policy=copy.deepcopy(case["polcfg"]))
+        elif entry != "foa":
+            pol = A.Policy(copy.deepcopy(case["polcfg"]), make_store(case["md"]))
+    except Exception as e:
+        return {"out": {"k": "crash", "exc": type(e).__name__}, "caller": abs_ava(ident), "self": None,
+                "mt": _regex_matrix(case["pol"], case["ident"])}
+    out, self_after = _call(entry, case, ident, pol, idp)
+    return {"out": out, "caller": abs_ava(ident), "self": self_after, "mt": _regex_matrix(case["pol"], case["ident"])}
+
+
+# ---- the life of ONE Policy object / ONE Server: several calls, the metadata store refreshed in between
+class LifeStub(StubStore):
+    """Stub store that describes several requesters; `world` maps entity id -> abstract md."""
+
+    def __init__(self, world_):
+        self.world = world_
+
+    def _md(self, entity_id):
+        return self.world.get(entity_id) or mk_md("stub")
+
+    def attribute_requirement(self, entity_id, index=None):
+        self.md = self._md(entity_id)
+        return StubStore.attribute_requirement(self, entity_id, index)
+
+    def subject_id_requirement(self, entity_id):
+        return sid_dicts(self._md(entity_id)["sid"])
+
+    def entity_categories(self, entity_id):
+        return list(self._md(entity_id)["ecs"])
+
+    def registration_info(self, entity_id):
+        return {"registration_authority": self._md(entity_id)["ra"], "registration_instant": None,
+                "registration_policy": {}}
+
+
+def _world_xmls(world_):
+    return [sp_md_xml(md, sp) for sp, md in sorted(world_.items())]
+
+
+def _refresh_real(mds, world_, how):
+    """What a metadata refresh does to a MetadataStore: the same store object describes the requesters anew.
+    reload  : MetadataStore.reload(spec) - the sources are loaded again into a new dict
+    swap    : every source object is replaced inside the dict the store already holds
+    inplace : the source objects stay, each parses the new document (what a periodic re-load of a source does)"""
+    from saml2.mdstore import InMemoryMetaData
+
+    xmls = _world_xmls(world_)
+    if how == "reload":
+        mds.reload({"inline": xmls})
+        return
+    if how == "inplace" and len(mds.metadata) == len(xmls):
+        for m, x in zip(list(mds.metadata.values()), xmls):
+            m.entity = {}
+            m.entities_descr = None
+            m.entity_descr = None
+            m.parse(x)
+        return
+    new = {}
+    for x in xmls:
+        m = InMemoryMetaData(acs(), x)
+        m.load()
+        new[x] = m
+    mds.metadata.clear()
+    mds.metadata.update(new)
+
+
+def life_world0(steps):
+    w = {}
+    for st in steps:
+        if st["md"] is not None and st["sp"] not in w:
+            w[st["sp"]] = st["md"]
+    return w
+
+
+def observe_life(case):
+    """host 'policy': one saml2.assertion.Policy(polcfg, store) for the whole life; host 'server': one Server (its
+    configuration's Policy object, its MetadataStore).  Before a call whose requester is described differently
+    from what the store holds, the store is refreshed (step['refresh'])."""
+    import saml2.assertion as A
+
+    steps = case["steps"]
+    world_ = {sp: copy.deepcopy(md) for sp, md in life_world0(steps).items()}
+    store_kind = case["store"]
+    pol = idp = mds = None
+    if case["host"] == "server":
+        env.install_standin()
+        idp = world.make_idp(metadata_xml=_world_xmls(world_), idp_policy=copy.deepcopy(case["polcfg"]))
+        pol = idp.config.getattr("policy", "idp")
+        mds = idp.metadata
+        if pol.metadata_store is not mds:
+            raise RuntimeError("the Server's policy does not consult the Server's metadata store")
+    else:
+        if store_kind == "real":
+            from saml2.mdstore import MetadataStore
+
+            mds = MetadataStore(acs(), None)
+            mds.imp({"inline": _world_xmls(world_)})
+        elif store_kind == "stub":
+            mds = LifeStub(world_)
+        pol = A.Policy(copy.deepcopy(case["polcfg"]), mds)
+    pols = [pol, A.Policy(copy.deepcopy(case["sib_polcfg"]), mds) if case.get("sib") else None]
+    obs = []
+    for st in steps:
+        if st["md"] is not None and world_.get(st["sp"]) != st["md"]:
+            world_[st["sp"]] = copy.deepcopy(st["md"])
+            if store_kind == "real":
+                _refresh_real(mds, world_, st.get("refresh") or "reload")
+        ident = _identity(st["ident"])
+        out, self_after = _call(st["entry"], st, ident, pols[st.get("on", 0)], idp)
+        obs.append({"out": out, "caller": abs_ava(ident), "self": self_after,
+                    "mt": _regex_matrix(case["sib_pol"] if st.get("on") else case["pol"], st["ident"])})
+    return {"steps": obs, "out": obs[-1]["out"], "caller": obs[-1]["caller"], "self": obs[-1]["self"], "mt": []}
 
 
 # ------------------------------------------------------------------------------ Coq terms
@@ -651,22 +802,38 @@ def cq_out(o):
     return "Missing" if o["k"] == "missing" else "Crash"
 
 
-def coq_case(case, obs):
-    e = case["entry"]
+def cq_entry(st):
+    e = st["entry"]
     if e == "foa":
-        ent = "(EFoa %s %s %s)" % (cq(bool(case["fail"])), cq([cq_ra(r) for r in case["req"]]),
-                                   cq([cq_ra(r) for r in case["opt"]]))
-    elif e == "filter":
-        ent = "(EFilter %s %s %s)" % (cq([cq_ra(r) for r in case["req"]]), cq([cq_ra(r) for r in case["opt"]]),
-                                      cq_opt(case.get("fo")))
-    elif e == "server":
-        ent = "(EServer %s)" % cq(bool(case["be"]))       # best_effort not given = False
-    else:
-        ent = "(%s %s)" % ({"restrict": "ERestrict", "apply": "EApply"}[e], cq_opt(case.get("fo")))
-    return "C10.Corr.mk %s %s %s %s %s %s %s %s %s" % (
-        cq_ava(case["ident"]), cq_pol(case["pol"]), cs(case["sp"]), cq_md(case["md"]), ent,
-        cq([(cs(r), cs(v)) for r, v in obs["mt"]]), cq_out(obs["out"]), cq_ava(obs["caller"]),
-        "None" if obs["self"] is None else "(Some %s)" % cq_ava(obs["self"]))
+        return "(EFoa %s %s %s)" % (cq(bool(st["fail"])), cq([cq_ra(r) for r in st["req"]]),
+                                    cq([cq_ra(r) for r in st["opt"]]))
+    if e == "filter":
+        return "(EFilter %s %s %s)" % (cq([cq_ra(r) for r in st["req"]]), cq([cq_ra(r) for r in st["opt"]]),
+                                       cq_opt(st.get("fo")))
+    if e == "server":
+        return "(EServer %s)" % cq(bool(st.get("be")))       # best_effort not given = False
+    return "(%s %s)" % ({"restrict": "ERestrict", "apply": "EApply"}[e], cq_opt(st.get("fo")))
+
+
+def cq_obs(obs):
+    return "%s %s %s %s" % (cq([(cs(r), cs(v)) for r, v in obs["mt"]]), cq_out(obs["out"]), cq_ava(obs["caller"]),
+                            "None" if obs["self"] is None else "(Some %s)" % cq_ava(obs["self"]))
+
+
+def coq_case(case, obs):
+    """A case is a life = list of calls on one object; the cases of one call are lives of length 1."""
+    if case["entry"] == "life":
+        steps = []
+        for st, o in zip(case["steps"], obs["steps"]):
+            if st.get("on"):     # a call on the second object of the process: judged against ITS configuration
+                steps.append("(fun _ => C10.Corr.mk %s %s %s %s %s %s)" % (
+                    cq_ava(st["ident"]), cq_pol(case["sib_pol"]), cs(st["sp"]), cq_md(st["md"]), cq_entry(st), cq_obs(o)))
+            else:
+                steps.append("C10.Corr.stp %s %s %s %s %s" % (cq_ava(st["ident"]), cs(st["sp"]), cq_md(st["md"]),
+                                                            cq_entry(st), cq_obs(o)))
+        return "C10.Corr.life %s [%s]" % (cq_pol(case["pol"]), "; ".join(steps))
+    return "[C10.Corr.mk %s %s %s %s %s %s]" % (
+        cq_ava(case["ident"]), cq_pol(case["pol"]), cs(case["sp"]), cq_md(case["md"]), cq_entry(case), cq_obs(obs))
 
 
 def explain_term(term):
@@ -1145,6 +1312,323 @@ def gen_server(rng, n):
     return cases
 
 
+# ------------------------------------------------------------------------------ lives: several calls on ONE object
+REFRESH_KINDS = ("reload", "swap", "inplace")
+SERVER_UNSAFE = ("edupersontargetedid",)
+
+
+def mk_step(entry, ident, sp, md, req=(), opt=(), fo=None, be=None, refresh=None, on=0):
+    """on: 0 = the object of the life, 1 = the SECOND Policy object of the process (other configuration, same store)."""
+    return {"entry": entry, "ident": [[k, v] for k, v in ident], "sp": sp, "md": copy.deepcopy(md),
+            "req": copy.deepcopy(list(req)), "opt": copy.deepcopy(list(opt)), "fail": True, "fo": fo, "be": be,
+            "refresh": refresh, "on": on}
+
+
+def mk_life(tag, host, store, pol, steps, rng, sib=False):
+    """host: 'policy' (one saml2.assertion.Policy) | 'server' (one Server: its Policy, its MetadataStore);
+    store: 'real' | 'stub' | 'none'.  sib (a policy, may be None = Policy(None)): a second Policy object with
+    ANOTHER configuration lives in the same process on the same store; steps with on=1 are calls on it."""
+    if store == "none":
+        for st in steps:
+            st["md"] = None
+    c = {"tag": tag, "entry": "life", "host": host, "store": store, "pol": pol, "polcfg": render_policy(pol, rng),
+         "steps": steps, "ident": [], "md": None, "sp": SP, "req": [], "opt": [], "fail": True, "be": None, "fo": None}
+    if sib is not False:
+        c["sib"] = True
+        c["sib_pol"] = sib
+        c["sib_polcfg"] = render_policy(sib, rng)
+    return c
+
+
+def md_split(md):
+    req = [r for r in md["ras"] if r["isreq"] == "true"]
+    opt = [r for r in md["ras"] if r["isreq"] != "true"]
+    return req, opt
+
+
+def life_step(rng, host, ident, sp, md, entry=None, fo=None, be=None, req=None, opt=None, on=0):
+    """A call of a kind the host offers; Policy.filter is given the requester's declaration as the caller would
+    read it from the metadata unless req/opt say otherwise."""
+    if entry is None:
+        entry = rng.choice(["server", "server", "restrict", "apply"] if host == "server" and not on
+                           else ["restrict", "apply", "filter", "restrict"])
+    kw = {}
+    if entry == "filter":
+        r0, o0 = md_split(md) if md is not None else ([], [])
+        kw = {"req": r0 if req is None else req, "opt": o0 if opt is None else opt}
+    if entry == "server":
+        fo = None
+    else:
+        be = None
+    return mk_step(entry, ident, sp, md, fo=fo, be=be, refresh=rng.choice(REFRESH_KINDS), on=on, **kw)
+
+
+def life_hosts(rng, n=None):
+    hs = [("policy", "real"), ("policy", "stub"), ("server", "real")]
+    return hs if n is None else [rng.choice(hs) for _ in range(n)]
+
+
+def ec_attr_ra(n, rng, isreq):
+    """Mostly a RequestedAttribute whose local name the code can work out (FriendlyName, or a Name the attribute
+    maps know); now and then one it cannot (get_entity_categories then fails with AttributeError)."""
+    kind = rng.choice(["uri", "uri", "basic", "local"])
+    fr = rng.choice(["right", "right", None])
+    known = {"uri": wire(n, URI), "basic": wire(n, BASIC)}.get(kind)
+    if fr is None and not known and rng.random() < 0.9:
+        fr = "right"
+    return ra_for(n, kind, fr, isreq=isreq)
+
+
+def gen_life_ec(rng, thorough):
+    """Entity categories decide: what entitles the requester SHRINKS or GROWS during the life of the object -
+    the set of isRequired attributes (ONLY_REQUIRED categories), the requester's categories, its registration
+    authority (another section applies), the `required` argument of Policy.filter; another requester and
+    another user in between.  Every order, every bundled module, the three hosts."""
+    cases = []
+    turn = [0]
+    for mod in EC_MODULES:
+        m = _ec_module(mod)
+        onlyreq = getattr(m, "ONLY_REQUIRED", {})
+        keys = [k for k in m.RELEASE if k != ""]
+        # the ONLY_REQUIRED keys first; at most 4 keys per module in the quick tier
+        keys.sort(key=lambda k: (not onlyreq.get(k, False), isinstance(k, tuple)))
+        heavy = len(m.RELEASE) > 8            # evaluating the property over a long table is expensive in Coq
+        if not thorough:
+            keys = keys[:2]
+        other_cats = [c for c in module_categories(mod)]
+        for ki, key in enumerate(keys):
+            cats = [key] if isinstance(key, str) else list(key)
+            attrs = [a for a in m.RELEASE[key]]
+            # quick tier: the three hosts for the ONLY_REQUIRED categories, one host (taking turns) for the others
+            hosts = life_hosts(rng)
+            if not thorough and (not onlyreq.get(key, False) or (heavy and ki > 0)):
+                turn[0] += 1
+                hosts = [hosts[turn[0] % 3]]
+            for host, store in hosts:
+                usable = [a for a in attrs if not (host == "server" and a.lower() in SERVER_UNSAFE)]
+                if not usable:
+                    continue
+                names = rng.sample(usable, min(len(usable), 4))
+                ident = [(n, ["v-" + n[:6], "w"] if i % 2 else ["v-" + n[:6]]) for i, n in enumerate(names)]
+                if "Foo" not in names:
+                    ident.append(("Foo", ["x"]))
+                ident2 = [(n, ["u-" + n[:5]]) for n in names[:2]] + [("x-secret", ["s"])]
+                a, b = names[0], names[min(1, len(names) - 1)]
+                full = [ec_attr_ra(a, rng, "true"), ec_attr_ra(b, rng, "true")] + \
+                       [ec_attr_ra(n, rng, "false") for n in names[2:3]]
+                half = [dict(full[0]), dict(full[1], isreq="false")] + [dict(r) for r in full[2:]]
+                none_ = [dict(r, isreq="false") for r in full]
+                gone = [dict(full[0])]                       # the other RequestedAttributes left the document
+                fail = rng.choice([None, False])
+                pol = [["default", mk_sec(None, fail, [mod])]]
+                mode = "stub" if store == "stub" else "real"
+
+                def md(ras, ecs, ra=None):
+                    return mk_md(mode, copy.deepcopy(ras), None, list(ecs), ra)
+
+                other = [c for c in other_cats if c not in cats][:1]
+                scen = {
+                    # the most entitled description first: an answer kept from an earlier call shows as an over-release
+                    "req-wave": [md(full, cats), md(half, cats), md(none_, cats), md(half, cats), md(full, cats), md(full, cats)],
+                    "req-drop": [md(full, cats), md(gone, cats), md([], cats)],
+                    "cat-wave": [md(full, cats), md(full, cats[:-1]), md(full, []), md(full, other), md(full, cats)],
+                }
+                if thorough:
+                    scen.update({
+                        "req-grow": [md(none_, cats), md(half, cats), md(full, cats)],
+                        "cat-join": [md(full, []), md(full, cats[:-1]), md(full, cats)],
+                        "cat-change": [md(full, other), md(full, cats), md(full, other)],
+                    })
+                for name, mds_ in scen.items():
+                    steps = [life_step(rng, host, ident, SP, x) for x in mds_]
+                    cases.append(mk_life("life-ec-" + name, host, store, copy.deepcopy(pol), steps, rng))
+                # the `required` argument of Policy.filter changes, the store does not
+                if host == "policy":
+                    base = md(full, cats)
+                    r_ab, r_a, r_b = [full[0], full[1]], [full[0]], [full[1]]
+                    orders = [[r_ab, r_a, r_b, [], r_ab]] + ([[[], r_b, r_ab], [r_a, r_ab, r_a]] if thorough else [])
+                    for order in orders:
+                        steps = [life_step(rng, host, ident, SP, base, entry="filter", req=rq, opt=full[2:]) for rq in order]
+                        cases.append(mk_life("life-ec-filter-arg", host, store, copy.deepcopy(pol), steps, rng))
+                # another requester (in no category / in the category with another declaration) in between
+                o1, o2 = md(half, []), md(half, cats)
+                orders = [[(SP, md(full, cats)), (OTHER_SP, o1), (SP, md(half, cats))],
+                          [(OTHER_SP, o2), (SP, md(full, cats)), (OTHER_SP, o2), (SP, md(full, cats))]]
+                if thorough:
+                    orders.append([(OTHER_SP, o1), (SP, md(full, cats)), (OTHER_SP, o1)])
+                for order in orders:
+                    steps = [life_step(rng, host, ident, sp, x) for sp, x in order]
+                    cases.append(mk_life("life-ec-two-sps", host, store, copy.deepcopy(pol), steps, rng))
+                # a SECOND Policy object in the process (other configuration: no categories / restrictions only /
+                # no configuration at all), same store, same requester, calls taking turns
+                sibs = [[["default", mk_sec(None, False)]], [["default", mk_sec([[b.lower(), None], ["foo", None]], False)]], None]
+                for sib in (sibs if thorough else rng.sample(sibs, 2)):
+                    order = rng.choice([[0, 1, 0], [1, 0, 1], [1, 0, 0, 1]])
+                    steps = [life_step(rng, host, ident, SP, md(full, cats), on=o) for o in order]
+                    cases.append(mk_life("life-ec-second-object", host, store, copy.deepcopy(pol), steps, rng,
+                                         sib=copy.deepcopy(sib)))
+                # another user in between
+                steps = [life_step(rng, host, i_, SP, md(full, cats)) for i_ in (ident, ident2, ident)]
+                cases.append(mk_life("life-ec-users", host, store, copy.deepcopy(pol), steps, rng))
+                # the registration authority changes: the section with the categories applies / the default one does
+                pol_ra = [[RA1, mk_sec(None, fail, [mod])], ["default", mk_sec([[a.lower(), None], ["foo", None]], False)]]
+                for order in (([RA1, None, RA1], [None, RA1, RA2], [RA2, RA1]) if thorough else ([RA1, None, RA1, RA2],)):
+                    steps = [life_step(rng, host, ident, SP, md(full, cats, ra)) for ra in order]
+                    cases.append(mk_life("life-ec-ra", host, store, copy.deepcopy(pol_ra), steps, rng))
+        # categories configured, no store at all: calls with different arguments
+        names = [a for a in m.RELEASE.get("", [])][:1] + ["mail", "Foo"]
+        ident = [(n, ["v"]) for n in dict.fromkeys(names)]
+        steps = [life_step(rng, "policy", ident, sp, None, entry=e, req=rq, opt=[])
+                 for sp, e, rq in ((SP, "filter", [ra_for("mail", "uri", "right")]), (SP, "restrict", []),
+                                   (OTHER_SP, "filter", []), (SP, "apply", []))]
+        cases.append(mk_life("life-ec-nostore", "policy", "none", [["default", mk_sec(None, None, [mod])]], steps, rng))
+    return cases
+
+
+def gen_life_decl(rng, thorough=False):
+    """No entity categories: the requester's declaration, its subject-id requirement, the section that applies
+    (requester / registration authority / default) and the fail flag decide - and change during the life."""
+    cases = []
+    ident = [("mail", ["a@example.org", "b@example.org"]), ("sn", ["x"]), ("givenName", ["staff"]), ("title", "The man"),
+             ("pairwise-id", ["id-1"])]
+    ident_nosid = [kv for kv in ident if kv[0] != "pairwise-id"]
+    ident2 = [("mail", ["student@umu.se"]), ("cn", ["x"])]
+    r_mail, r_sn, r_gn, r_dn = (ra_for(n, "uri", "right") for n in ("mail", "sn", "givenName", "displayName"))
+    r_mail_v = ra_for("mail", "uri", "right", ["a@example.org"])
+
+    def ras(req, opt=()):
+        return [dict(r, isreq="true") for r in req] + [dict(r, isreq="false") for r in opt]
+
+    for host, store in life_hosts(rng):
+        mode = "stub" if store == "stub" else "real"
+
+        def md(req, opt=(), sid=None, ra=None):
+            return mk_md(mode, ras(req, opt), sid, [], ra)
+
+        decl = {
+            "shrink": [md([r_mail, r_sn], [r_gn]), md([r_mail], [r_gn]), md([r_mail]), md([])],
+            "grow": [md([]), md([r_mail]), md([r_mail], [r_gn]), md([r_mail, r_sn], [r_gn])],
+            "values": [md([r_mail]), md([r_mail_v]), md([r_mail])],
+            "unsuppliable": [md([r_mail]), md([r_mail, r_dn]), md([r_mail], [r_dn]), md([r_mail, r_dn])],
+            "sid": [md([r_mail], sid="pairwise-id"), md([r_mail]), md([r_mail], sid="subject-id"), md([r_mail], sid="any")],
+        }
+        ar_ = [["mail", [".*@example\\.org$"]], ["sn", None], ["pairwise-id", None]]
+        for fail, arsec in (((None, None), (None, ar_), (False, None), (False, ar_)) if thorough else ((None, ar_), (False, None))):
+            if True:
+                pol = [["default", mk_sec(copy.deepcopy(arsec), fail)]]
+                for name, mds_ in decl.items():
+                    for idn in ((ident, ident_nosid) if name == "sid" else (ident,)):
+                        steps = [life_step(rng, host, idn, SP, x, fo=rng.choice([None, None, False]),
+                                           be=rng.choice([None, None, True])) for x in mds_]
+                        cases.append(mk_life("life-decl-" + name, host, store, copy.deepcopy(pol), steps, rng))
+        # the fail_on_missing argument / best_effort changes from call to call, nothing else does
+        x = md([r_mail, r_dn], [r_sn])
+        for order in ([None, False, None, True], [False, None], [True, False, None]):
+            steps = [life_step(rng, host, ident, SP, x, fo=o, be=(None if o is None else not o)) for o in order]
+            cases.append(mk_life("life-decl-fo", host, store, [["default", mk_sec(None, None)]], steps, rng))
+        # which section applies changes: the requester's registration authority changes; two requesters with
+        # their own sections; two users
+        pol = [[SP, mk_sec([["mail", None]], False)], [RA1, mk_sec([["sn", None], ["givenname", None]], None)],
+               [RA2, mk_sec(None, False)], ["default", mk_sec([["title", None]], False)]]
+        for order in ([(OTHER_SP, RA1), (OTHER_SP, None), (OTHER_SP, RA2), (OTHER_SP, RA1)],
+                      [(SP, RA1), (OTHER_SP, RA1), (SP, None), (OTHER_SP, None)],
+                      [(OTHER_SP, None), (SP, None), (OTHER_SP, RA2), (OTHER_SP, RA1)]):
+            for decl_ in ([], [r_mail, r_sn]):
+                steps = [life_step(rng, host, rng.choice([ident, ident, ident2]), sp, md([], decl_, ra=ra)) for sp, ra in order]
+                cases.append(mk_life("life-decl-ra", host, store, copy.deepcopy(pol), steps, rng))
+    return cases
+
+
+def mutate_md(rng, md, ident, pol, real):
+    """One refresh: the requester's description changes in one or two respects."""
+    md = copy.deepcopy(md)
+    idnames = [k for k, _ in ident if k]
+    for _ in range(rng.choice([1, 1, 2])):
+        k = rng.randrange(9)
+        if k == 0 and md["ras"]:
+            del md["ras"][rng.randrange(len(md["ras"]))]
+        elif k == 1:
+            md["ras"].insert(rng.randrange(len(md["ras"]) + 1), rand_ra(rng, idnames, real))
+        elif k in (2, 3) and md["ras"]:
+            r = rng.choice(md["ras"])
+            r["isreq"] = "false" if r["isreq"] == "true" else "true"
+        elif k == 4 and md["ras"]:
+            r = rng.choice(md["ras"])
+            r["values"] = [] if r["values"] else [rng.choice([v for v in VALS if v])]
+        elif k == 5 and md["ecs"]:
+            del md["ecs"][rng.randrange(len(md["ecs"]))]
+        elif k in (5, 6):
+            pref = []
+            for _, sec in (pol or []):
+                for m in ((sec or {}).get("ecs") or []):
+                    pref.extend(module_categories(m))
+            md["ecs"].append(rng.choice(pref) if pref and rng.random() < 0.8 else rng.choice(all_cats()))
+        elif k == 7:
+            md["ra"] = rng.choice([x for x in (None, RA1, RA2) if x != md["ra"]])
+        else:
+            md["sid"] = rng.choice([x for x in (None, "any", "pairwise-id", "subject-id", "none") if x != md["sid"]])
+    return md
+
+
+def gen_life_random(rng, n):
+    cases = []
+    for _ in range(n):
+        host, store = rng.choice([("policy", "real"), ("policy", "stub"), ("policy", "stub"), ("server", "real"),
+                                  ("server", "real"), ("policy", "none")])
+        server = host == "server"
+        real = store == "real"
+        ident0 = rand_ident(rng, server=server)
+        ra_known = rng.choice([None, RA1])
+        pol = rand_pol(rng, ident0, ra_known, ec_p=0.5)
+        ec = any((sec or {}).get("ecs") for _, sec in (pol or []))
+
+        def clean(i_):
+            return [(k, v) for k, v in i_ if k or not ec]
+
+        ident0 = clean(ident0)
+        world_ = {}
+        steps = []
+        ident = ident0
+        sib = False
+        if rng.random() < 0.3:
+            sib = rand_pol(rng, ident0, ra_known, ec_p=0.5)
+            ec = ec or any((sec or {}).get("ecs") for _, sec in (sib or []))
+            ident0 = clean(ident0)
+        ident = ident0
+        for _i in range(rng.choice([2, 2, 3, 3, 4, 5])):
+            sp = rng.choice([SP, SP, OTHER_SP])
+            if rng.random() < 0.3:
+                ident = clean(rand_ident(rng, server=server))
+            md = None
+            if store != "none":
+                if sp not in world_:
+                    md = rand_md(rng, ident, pol, mode="real" if real else "stub")
+                    if ra_known and rng.random() < 0.6:
+                        md["ra"] = ra_known
+                elif rng.random() < 0.65:
+                    md = mutate_md(rng, world_[sp], ident, pol, real)
+                else:
+                    md = world_[sp]
+                world_[sp] = md
+            kw = {}
+            on = 1 if sib is not False and rng.random() < 0.45 else 0
+            entry = rng.choice(["server", "server", "restrict", "apply"] if server and not on
+                               else ["restrict", "apply", "filter", "filter"])
+            if entry == "filter" and rng.random() < 0.6:
+                ras_ = rand_ras(rng, ident, False)
+                kw = {"req": [r for r in ras_ if r["isreq"] == "true"], "opt": [r for r in ras_ if r["isreq"] != "true"]}
+            steps.append(life_step(rng, host, ident, sp, md, entry=entry, fo=rng.choice([None, None, None, True, False]),
+                                   be=rng.choice([None, False, True]), on=on, **kw))
+        cases.append(mk_life("life-rand", host, store, pol, steps, rng, sib=sib))
+    return cases
+
+
+def gen_lives(rng, thorough):
+    cases = gen_life_ec(rng, thorough) + gen_life_decl(rng, thorough) + gen_life_random(rng, 1500 if thorough else 200)
+    rng.shuffle(cases)         # spread the expensive ones (long category tables) over the shards
+    return cases
+
+
 def generate(ctx):
     rng = ctx.rng
     t = ctx.thorough
@@ -1158,12 +1642,29 @@ def generate(ctx):
     cases += gen_subject_id(rng)
     cases += gen_random(rng, 6000 if t else 1200, ["foa", "filter", "restrict", "apply", "restrict", "apply"])
     cases += gen_server(rng, 1200 if t else 190)
+    cases += gen_lives(rng, t)
     return cases
 
 
 # ------------------------------------------------------------------------------ evidence
 def nontrivial(case, obs):
     pol = case["pol"]
+    if case["entry"] == "life":
+        # distinct = host, store, shape of the policy, per call (entry, requester, did the store change, outcome,
+        # released more / less / the same names as the previous call for that requester)
+        seen, sig = {}, []
+        for st, o in zip(case["steps"], obs["steps"]):
+            names = sorted(k for k, _ in o["out"]["ava"]) if o["out"]["k"] == "ok" else None
+            prev = seen.get(st["sp"])
+            rel = None
+            if prev is not None and names is not None and prev[1] is not None:
+                rel = "same" if names == prev[1] else "less" if set(names) < set(prev[1]) else \
+                    "more" if set(names) > set(prev[1]) else "other"
+            sig.append((st["entry"], st["sp"] == SP, st.get("on", 0), prev is not None and prev[0] != st["md"],
+                        o["out"]["k"], rel))
+            seen[st["sp"]] = (st["md"], names)
+        ec = any(s_ and s_["ecs"] for _, s_ in (pol or []))
+        return ("life", case["host"], case["store"], ec, len(pol or []), sig)
     seckinds = tuple(sorted((("sp" if w == SP else "ra" if w in (RA1, RA2) else w if w in ("default", "") else "other"),
                              None if s is None else (bool(s["ar"]), s["fail"], bool(s["ecs"]))) for w, s in (pol or [])))
     md = case["md"]
@@ -1182,9 +1683,40 @@ def histogram(cases, observed):
     h = {"by_tag": {}, "by_entry": {}, "outcome": {}, "exceptions": {}, "store": {}, "released_fraction": {},
          "str_valued_attrs": 0, "repeated_values": 0, "ec_sections": 0, "regex_sections": 0,
          "server_best_effort_x_outcome": {}, "fail_on_missing_arg_x_outcome": {}, "nostore_with_entity_categories": {}}
+    h["lives"] = {"calls": 0, "by_host_store": {}, "length": {}, "store_refreshed_before_call": 0, "refresh_kind": {},
+                  "second_requester_calls": 0, "release_vs_previous_call_same_requester": {}, "call_entry": {},
+                  "call_outcome": {}}
     for c, o in zip(cases, observed):
         h["by_tag"][c["tag"]] = h["by_tag"].get(c["tag"], 0) + 1
         h["by_entry"][c["entry"]] = h["by_entry"].get(c["entry"], 0) + 1
+        if c["entry"] == "life":
+            L = h["lives"]
+            hs = "%s/%s" % (c["host"], c["store"])
+            L["by_host_store"][hs] = L["by_host_store"].get(hs, 0) + 1
+            L["length"][str(len(c["steps"]))] = L["length"].get(str(len(c["steps"])), 0) + 1
+            seen = {}
+            for st, so in zip(c["steps"], o["steps"]):
+                L["calls"] += 1
+                L["call_entry"][st["entry"]] = L["call_entry"].get(st["entry"], 0) + 1
+                L["call_outcome"][so["out"]["k"]] = L["call_outcome"].get(so["out"]["k"], 0) + 1
+                L["second_requester_calls"] += st["sp"] != SP
+                L["calls_on_second_policy_object"] = L.get("calls_on_second_policy_object", 0) + (1 if st.get("on") else 0)
+                names = sorted(k for k, _ in so["out"]["ava"]) if so["out"]["k"] == "ok" else None
+                prev = seen.get(st["sp"])
+                if prev is not None:
+                    if prev[0] != st["md"]:
+                        L["store_refreshed_before_call"] += 1
+                        if c["store"] == "real":
+                            L["refresh_kind"][st["refresh"]] = L["refresh_kind"].get(st["refresh"], 0) + 1
+                    if names is not None and prev[1] is not None:
+                        rel = "same" if names == prev[1] else "less" if set(names) < set(prev[1]) else \
+                            "more" if set(names) > set(prev[1]) else "other"
+                    else:
+                        rel = "error before or now"
+                    d = L["release_vs_previous_call_same_requester"]
+                    d[rel] = d.get(rel, 0) + 1
+                seen[st["sp"]] = (st["md"], names)
+            continue
         k = o["out"]["k"]
         h["outcome"][k] = h["outcome"].get(k, 0) + 1
         if k == "crash":
